@@ -35,7 +35,7 @@ def run(tier):
         vf.rm(os.path.dirname(pairs))
     for i, name in viols:
         o = full[i - 1]
-        v.violation({"dialect": o["dialect"], "kind": o["kind"], "formula": name, "label": o["type"] if o["kind"] == "showcase" else "", "type": o["type"] if o["kind"] == "type" else ""},
+        v.violation({"dialect": o["dialect"], "kind": o["kind"], "formula": name, "label": o["type"] if o["kind"] in ("showcase", "objects", "default") else "", "type": o["type"] if o["kind"] == "type" else ""},
                     {"type": o["type"], "err": o["err"], "changes": o.get("changes"), "hcl": o.get("hcl", "")[:1500]})
     types = sum(c for k, c in info["counts"].items() if k.endswith(":type"))
     v.cov = {"evaluations": events, "distinct_nontrivial": types + info["states"] * 3,
